@@ -1,5 +1,5 @@
 """C20 — wrap / rst / Metadata.doc / textwrap contract: case grammar, direct oracle, T2 against Model/Wrap.v."""
-import re
+import ast, re
 from .. import env, coq, gen
 from .c20_fixws import IMPORTS, RES_EQB, PYWS
 
@@ -7,7 +7,8 @@ TWWS = "\t\n\x0b\x0c\r "
 TW_SPLIT = re.compile("[\t\n\x0b\x0c\r ]+")
 
 WORDS = ["a", "bb", "ccc", "dddd", "eeeee", "the", "quick", "brown", "fox", "x" * 12, "y" * 25, "z" * 41, "foo:", "bar.", "Note:", "-", "+", "1.", "22.",
-         "*", '"q"', "'s", "\\", "a\\b", "it-em", "http://a-b/c-d", "\x1c", "z:", ":", "e.g.", "(see", "below)", "3.", "i.e.,", "end\""]
+         "*", '"q"', "'s", "\\", "a\\b", "it-em", "http://a-b/c-d", "\x1c", "z:", ":", "e.g.", "(see", "below)", "3.", "i.e.,", "end\"",
+         '"""', '""', '"""""', '\\"""', "C:\\"]
 SEPS = [" "] * 12 + ["\n"] * 6 + ["  ", "   ", "\n\n", "\n ", "\n  ", "\t", " \n", "\r", "\x0c", ":\n", "\n- ", "\n+ ", "\n1. ", "\n22. ", "\n\n\n", "\x1d", ":\n\n", "\n\n- "]
 
 CORPUS = [
@@ -82,18 +83,44 @@ def oracle_wrap(text, width, offset, indent, rec):
     return bad
 
 
+ESCAPED_TERMINATOR = '\\"\\"\\"'
+
+
+def unescape(s):
+    """rst writes the docstring terminator with a backslash before each quote; read it back as the terminator."""
+    return s.replace(ESCAPED_TERMINATOR, '"""')
+
+
+def docstring_body(out):
+    """What Python reads when `out` is placed between r\"\"\" and \"\"\" (None: the source does not parse)."""
+    try:
+        tree = ast.parse('x = r"""' + out + '"""\n')
+    except (SyntaxError, ValueError):
+        return None
+    if len(tree.body) != 1 or not isinstance(tree.body[0], ast.Assign) or not isinstance(tree.body[0].value, ast.Constant):
+        return None
+    return tree.body[0].value.value
+
+
 def oracle_rst(text, width, indent, nl, rec):
     if "ok" not in rec:
         sig = first_line_class(text, width - indent, indent + 3)
         return [("raises", f"{rec.get('err')}", sig if rec.get("err") == "IndexError" else None)]
     out, bad = rec["ok"], []
+    # text placed inside a generated docstring can never terminate the string literal early (both paths of rst)
+    body = docstring_body(out)
+    if body is None:
+        bad.append(("docstring-safe", f"r\"\"\"...\"\"\" around the result is not a string literal: {out!r:.160}",
+                    "docstring.triple_quote_in_comment" if '"""' in text else "docstring.trailing_backslash_in_service_comment" if text.rstrip().endswith("\\") else None))
+    elif body != out.replace("\r\n", "\n").replace("\r", "\n"):
+        bad.append(("docstring-safe", f"the literal read back differs from the result: {body!r:.120}", None))
     if rec.get("pandoc"):
         return bad
-    w_out, w_in = words(out), words(text)
+    w_out, w_in = words(unescape(out)), words(unescape(text))
     if w_out != w_in and not (w_in and w_in[-1].endswith('"') and w_out == w_in[:-1] + [w_in[-1] + "."]):
         bad.append(("words", f"rst (plain path) changed the words: {out!r:.160}", first_line_class(text, width - indent, indent + 3)))
-    if out.endswith('"'):
-        bad.append(("quote-guard", "the text ends in a double quote: the closing triple quote would absorb it", None))
+    if out.endswith('"') or out.endswith("\\"):
+        bad.append(("quote-guard", "the result ends in a double quote or a backslash: the closing triple quote would absorb it / be escaped", None))
     return bad
 
 
